@@ -10,7 +10,9 @@ Recognition is spelling-independent: getDeltas is read through the forward subst
 simple helpers are replaced by their definitions) and every weight is compared as a sympy term over ROLE symbols (momenta,
 Jacobians, masses: identified by the public attribute / method they are read from); arguments are bound by keyword or position.
 Copy-pasted statements folded into one comprehension / loop over a literal collection of cases (tuple, list, dict display, zip / enumerate /
-.items() of them; unpacked, indexed, or splatted into a call with * / **) are written out case by case first (`written_out`).
+.items() of them; unpacked, indexed, or splatted into a call with * / **) are written out case by case first (`written_out`).  One loop that
+fills several collections (with loop-local temporaries) is one comprehension per collection; `dataclasses.fields(self)` / `__dataclass_fields__`
+of a dataclass of the package are its declared field names, `getattr(x, "name")` is `x.name`, tests between written-out labels are decided.
 """
 from __future__ import annotations
 
@@ -91,6 +93,7 @@ class _WriteOut(ast.NodeTransformer):
 
     def __init__(self, S, fi, node):
         self.orig, self.fn = fi.node, node            # node: the copy of fi.node that is rewritten
+        self.S, self.fi = S, fi
         self.defs = Ctx(S, fi).local_defs()
         self.changed = False
         self._frozen: dict = {}
@@ -148,8 +151,79 @@ class _WriteOut(ast.NodeTransformer):
             return None
         return list(zip(d.keys, d.values))
 
+    # -- the fields of a dataclass of the package: `dataclasses.fields(self)` are its declared fields, in declaration order
+    FIELD = "__dataclass_field__"
+
+    def _dataclass(self, e):
+        """the ClassInfo of the package dataclass whose instance / class the expression e is: `self`, `type(self)`, `self.__class__`, the class
+        name, a parameter annotated with the class of the method; None when unknown"""
+        fi = self.fi
+        if fi.cls is None or fi.cls not in self.S.modules[fi.module].classes:
+            return None
+        ci = self.S.modules[fi.module].classes[fi.cls]
+        a = fi.node.args
+        params = a.posonlyargs + a.args + a.kwonlyargs
+        deco = {"staticmethod" if "staticmethod" in src(d) else "classmethod" if "classmethod" in src(d) else "" for d in fi.node.decorator_list}
+        first = params[0].arg if params and "staticmethod" not in deco else None
+        own = False
+        if isinstance(e, ast.Name):
+            ann = {p.arg: p.annotation for p in params}
+            stored = {x.id for x in ast.walk(self.orig) if isinstance(x, ast.Name) and isinstance(x.ctx, ast.Store)}
+            if e.id in stored:
+                return None
+            own = e.id == first or e.id == fi.cls or (e.id in ann and ann[e.id] is not None and (
+                (isinstance(ann[e.id], ast.Constant) and ann[e.id].value == fi.cls) or (isinstance(ann[e.id], ast.Name) and ann[e.id].id == fi.cls)))
+        elif isinstance(e, ast.Call) and isinstance(e.func, ast.Name) and e.func.id == "type" and len(e.args) == 1 and not e.keywords:
+            own = isinstance(e.args[0], ast.Name) and e.args[0].id == first and "classmethod" not in deco
+        elif isinstance(e, ast.Attribute) and e.attr == "__class__":
+            own = isinstance(e.value, ast.Name) and e.value.id == first and "classmethod" not in deco
+        if not own:
+            return None
+        is_dc = any(src(d.func if isinstance(d, ast.Call) else d) in ("dataclass", "dataclasses.dataclass") for d in ci.node.decorator_list)
+        return ci if is_dc and not ci.bases else None       # inherited fields are not followed
+
+    def field_cases(self, it):
+        """the cases of an iteration over the declared fields of a package dataclass: `fields(x)` / `dataclasses.fields(x)` yields one field object
+        per declared field (written here as a marker name of which only `.name` may be read), `x.__dataclass_fields__` the field names"""
+        imports = self.S.modules[self.fi.module].imports
+        obj, names_only = None, False
+        if isinstance(it, ast.Call) and len(it.args) == 1 and not it.keywords and not isinstance(it.args[0], ast.Starred):
+            f = it.func
+            if (isinstance(f, ast.Name) and imports.get(f.id) == "dataclasses:fields") or \
+                    (isinstance(f, ast.Attribute) and f.attr == "fields" and isinstance(f.value, ast.Name) and imports.get(f.value.id) == "dataclasses"):
+                obj = it.args[0]
+        elif isinstance(it, ast.Attribute) and it.attr == "__dataclass_fields__":
+            obj, names_only = it.value, True
+        ci = self._dataclass(obj) if obj is not None else None
+        if ci is None:
+            return None
+        names = []
+        for st in ci.node.body:
+            if isinstance(st, ast.AnnAssign) and isinstance(st.target, ast.Name):
+                if any(w in src(st.annotation) for w in ("ClassVar", "InitVar", "KW_ONLY")):
+                    return None          # pseudo-fields: not decoded
+                names.append(st.target.id)
+        if not names:
+            return None
+        return [ast.Constant(value=nm) if names_only else ast.Name(id=self.FIELD + nm, ctx=ast.Load()) for nm in names]
+
+    def _field_names(self, head):
+        """head with `<field object>.name` replaced by the field's name; None when a field object is used in any other way"""
+        outer = self
+
+        class T(ast.NodeTransformer):
+            def visit_Attribute(self, x):
+                if isinstance(x.value, ast.Name) and x.value.id.startswith(outer.FIELD) and x.attr == "name" and isinstance(x.ctx, ast.Load):
+                    return ast.copy_location(ast.Constant(value=x.value.id[len(outer.FIELD):]), x)
+                return self.generic_visit(x)
+        head = T().visit(head)
+        return None if any(isinstance(x, ast.Name) and x.id.startswith(self.FIELD) for x in ast.walk(head)) else head
+
     def cases(self, it):
         from .c01 import _literal_cases
+        fc = self.field_cases(it)
+        if fc is not None:
+            return fc
         if isinstance(it, ast.Call) and isinstance(it.func, ast.Attribute) and it.func.attr in ("items", "values", "keys") and not it.args and not it.keywords:
             kv = self.dict_items(it.func.value)
             if kv is None:
@@ -187,7 +261,10 @@ class _WriteOut(ast.NodeTransformer):
             bind: dict = {}
             if not _bind_target(g.target, c if isinstance(g.target, ast.Name) else _chain(self.defs, c), bind):
                 return None
-            out.append([ast.copy_location(_Subst(bind).visit(copy.deepcopy(h)), h) for h in heads])
+            row = [self._field_names(ast.copy_location(_Subst(bind).visit(copy.deepcopy(h)), h)) for h in heads]
+            if any(r is None for r in row):
+                return None
+            out.append(row)
         return out
 
     def visit_ListComp(self, x):
@@ -239,6 +316,35 @@ class _WriteOut(ast.NodeTransformer):
             return ast.copy_location(copy.deepcopy(seq.elts[k.value]), x)
         return x
 
+    # -- tests on written-out cases: `"Delta02" == "Delta02"`, `"deltaF" in ("deltaF", "Deltas")` and the conditional expressions they decide
+    @staticmethod
+    def _label(e):
+        return isinstance(e, ast.Constant) and isinstance(e.value, (str, int)) and not isinstance(e.value, bool)
+
+    def visit_Compare(self, x):
+        self.generic_visit(x)
+        if len(x.ops) != 1 or not self._label(x.left):
+            return x
+        op, r = x.ops[0], x.comparators[0]
+        if isinstance(op, (ast.Eq, ast.NotEq)) and self._label(r):
+            same_ = type(x.left.value) is type(r.value) and x.left.value == r.value
+            self.changed = True
+            return ast.copy_location(ast.Constant(value=same_ == isinstance(op, ast.Eq)), x)
+        if isinstance(op, (ast.In, ast.NotIn)):
+            seq = self.display(r, (ast.Tuple, ast.List, ast.Set))
+            if seq is not None and seq.elts and all(self._label(e) for e in seq.elts):
+                hit = any(type(x.left.value) is type(e.value) and x.left.value == e.value for e in seq.elts)
+                self.changed = True
+                return ast.copy_location(ast.Constant(value=hit == isinstance(op, ast.In)), x)
+        return x
+
+    def visit_IfExp(self, x):
+        self.generic_visit(x)
+        if isinstance(x.test, ast.Constant) and isinstance(x.test.value, bool):
+            self.changed = True
+            return x.body if x.test.value else x.orelse
+        return x
+
     def visit_Assign(self, x):
         self.generic_visit(x)
         if len(x.targets) == 1 and isinstance(x.targets[0], (ast.Tuple, ast.List)):
@@ -248,6 +354,11 @@ class _WriteOut(ast.NodeTransformer):
     def visit_Call(self, x):
         self.generic_visit(x)
         d = dotted(x.func) or ""
+        # getattr(obj, "name") is obj.name
+        if d == "getattr" and "getattr" not in self.defs and len(x.args) == 2 and not x.keywords and isinstance(x.args[1], ast.Constant) \
+                and isinstance(x.args[1].value, str) and x.args[1].value.isidentifier() and not isinstance(x.args[0], ast.Starred):
+            self.changed = True
+            return ast.copy_location(ast.Attribute(value=x.args[0], attr=x.args[1].value, ctx=ast.Load()), x)
         if d in ("tuple", "list", "sum", "np.sum", "np.array", "np.asarray", "max", "min") and len(x.args) == 1 and not x.keywords:
             x.args = [self._generator(x.args[0]) or x.args[0]]
         # f(*[a, b]) == f(a, b);  f(**{"k": v}) == f(k=v)
@@ -277,48 +388,127 @@ def _mentions(e, name: str) -> bool:
     return any(isinstance(x, ast.Name) and x.id == name for x in ast.walk(e))
 
 
-def _collecting_loops(stmts: list) -> tuple:
-    """`X = {}` + `for T in IT: X[K] = V`  is  `X = {K: V for T in IT}`;  `X = []` + `for T in IT: X.append(V)`  is  `X = [V for T in IT]`
-    (exactly: the loop directly follows the empty display, its body is that one statement, and neither IT, K nor V reads X)"""
-    out, changed, i = [], False, 0
-    while i < len(stmts):
-        st = stmts[i]
-        nxt = stmts[i + 1] if i + 1 < len(stmts) else None
-        new = None
-        if isinstance(st, (ast.Assign, ast.AnnAssign)) and st.value is not None and isinstance(nxt, ast.For) and not nxt.orelse and len(nxt.body) == 1:
-            t = st.targets[0] if isinstance(st, ast.Assign) and len(st.targets) == 1 else st.target if isinstance(st, ast.AnnAssign) else None
-            v, b = st.value, nxt.body[0]
-            empty = "dict" if (isinstance(v, ast.Dict) and not v.keys) or (isinstance(v, ast.Call) and dotted(v.func) == "dict" and not v.args and not v.keywords) else \
-                "list" if (isinstance(v, ast.List) and not v.elts) or (isinstance(v, ast.Call) and dotted(v.func) == "list" and not v.args and not v.keywords) else None
-            gen = ast.comprehension(target=nxt.target, iter=nxt.iter, ifs=[], is_async=0)
-            loopvars = {x.id for x in ast.walk(nxt.target) if isinstance(x, ast.Name)}
-            if isinstance(t, ast.Name) and empty and t.id not in loopvars and not _mentions(nxt.iter, t.id) \
-                    and all(isinstance(x, (ast.Name, ast.Tuple, ast.List, ast.Store)) for x in ast.walk(nxt.target)):
-                if empty == "dict" and isinstance(b, ast.Assign) and len(b.targets) == 1 and isinstance(b.targets[0], ast.Subscript) and isinstance(b.targets[0].value, ast.Name) \
-                        and b.targets[0].value.id == t.id and not _mentions(b.targets[0].slice, t.id) and not _mentions(b.value, t.id):
-                    new = ast.DictComp(key=b.targets[0].slice, value=b.value, generators=[gen])
-                elif empty == "list" and isinstance(b, ast.Expr) and isinstance(b.value, ast.Call) and isinstance(b.value.func, ast.Attribute) and b.value.func.attr == "append" \
-                        and isinstance(b.value.func.value, ast.Name) and b.value.func.value.id == t.id and len(b.value.args) == 1 and not b.value.keywords \
-                        and not isinstance(b.value.args[0], ast.Starred) and not _mentions(b.value.args[0], t.id):
-                    new = ast.ListComp(elt=b.value.args[0], generators=[gen])
-        if new is not None:
-            st2 = ast.Assign(targets=[ast.Name(id=t.id, ctx=ast.Store())], value=ast.copy_location(new, nxt))
-            out.append(ast.copy_location(st2, nxt))
-            changed = True
-            i += 2
-            continue
+def _empty_display(v):
+    """'dict' / 'list' when v is an empty display ({} / dict() / [] / list()), else None"""
+    if (isinstance(v, ast.Dict) and not v.keys) or (isinstance(v, ast.Call) and dotted(v.func) == "dict" and not v.args and not v.keywords):
+        return "dict"
+    if (isinstance(v, ast.List) and not v.elts) or (isinstance(v, ast.Call) and dotted(v.func) == "list" and not v.args and not v.keywords):
+        return "list"
+    return None
+
+
+def _empty_assigned(st):
+    """(name, 'dict' | 'list') when st is `name = <empty display>`, else None"""
+    if isinstance(st, (ast.Assign, ast.AnnAssign)) and st.value is not None:
+        t = st.targets[0] if isinstance(st, ast.Assign) and len(st.targets) == 1 else st.target if isinstance(st, ast.AnnAssign) else None
+        kind = _empty_display(st.value)
+        if isinstance(t, ast.Name) and kind:
+            return t.id, kind
+    return None
+
+
+def _split_empties(st):
+    """`a, b = [], []` (every right-hand side an empty display) as the separate statements `a = []`, `b = []`, else None"""
+    if (isinstance(st, ast.Assign) and len(st.targets) == 1 and isinstance(st.targets[0], (ast.Tuple, ast.List)) and isinstance(st.value, (ast.Tuple, ast.List))
+            and len(st.targets[0].elts) == len(st.value.elts) > 1 and all(isinstance(t, ast.Name) for t in st.targets[0].elts)
+            and all(_empty_display(v) for v in st.value.elts) and len({t.id for t in st.targets[0].elts}) == len(st.value.elts)):
+        return [ast.copy_location(ast.Assign(targets=[ast.Name(id=t.id, ctx=ast.Store())], value=v), st) for t, v in zip(st.targets[0].elts, st.value.elts)]
+    return None
+
+
+def _collected(loop: ast.For, root) -> list | None:
+    """[(collection name, 'list' | 'dict', key | None, value)] when the body of `loop` only collects: every statement is either
+    `X.append(V)` / `X[K] = V` -- one such statement per collection X -- or the assignment of a loop-local temporary (a plain name that is
+    assigned once per iteration, before it is read, and that nothing outside the loop mentions), which is replaced by its definition in the
+    collected keys / values.  Neither the iterable, the keys, the values nor the temporaries read a collection.  None otherwise."""
+    from .c01 import _Subst
+    if loop.orelse or not all(isinstance(x, (ast.Name, ast.Tuple, ast.List, ast.Store)) for x in ast.walk(loop.target)):
+        return None
+    loopvars = {x.id for x in ast.walk(loop.target) if isinstance(x, ast.Name)}
+    inside = {id(x) for x in ast.walk(loop)}
+    steps = []      # ('temp', name, value) | ('collect', name, kind, key, value), in body order
+    for b in loop.body:
+        if isinstance(b, ast.Assign) and len(b.targets) == 1 and isinstance(b.targets[0], ast.Subscript) and isinstance(b.targets[0].value, ast.Name):
+            steps.append(("collect", b.targets[0].value.id, "dict", b.targets[0].slice, b.value))
+        elif isinstance(b, ast.Expr) and isinstance(b.value, ast.Call) and isinstance(b.value.func, ast.Attribute) and b.value.func.attr == "append" \
+                and isinstance(b.value.func.value, ast.Name) and len(b.value.args) == 1 and not b.value.keywords and not isinstance(b.value.args[0], ast.Starred):
+            steps.append(("collect", b.value.func.value.id, "list", None, b.value.args[0]))
+        elif isinstance(b, ast.Assign) and len(b.targets) == 1 and isinstance(b.targets[0], ast.Name):
+            steps.append(("temp", b.targets[0].id, b.value))
+        elif isinstance(b, ast.AnnAssign) and b.value is not None and isinstance(b.target, ast.Name):
+            steps.append(("temp", b.target.id, b.value))
+        else:
+            return None
+    names = [s_[1] for s_ in steps if s_[0] == "collect"]
+    tnames = [s_[1] for s_ in steps if s_[0] == "temp"]
+    if not names or len(set(names)) != len(names) or len(set(tnames)) != len(tnames) or set(names) & (loopvars | set(tnames)) or set(tnames) & loopvars:
+        return None
+    # a temporary lives inside one iteration: nothing outside the loop mentions it
+    if any(isinstance(x, ast.Name) and x.id in tnames and id(x) not in inside for x in ast.walk(root)):
+        return None
+    if any(_mentions(loop.iter, x) for x in names + tnames):
+        return None
+    temps: dict = {}
+    out = []
+    for s_ in steps:
+        parts = [p for p in s_[2:] if isinstance(p, ast.AST)]
+        reads = {x.id for p in parts for x in ast.walk(p) if isinstance(x, ast.Name)}
+        # no part reads a collection, a temporary that is assigned later (it would carry the value of the previous iteration), or re-binds a temporary
+        if reads & set(names) or reads & (set(tnames) - set(temps)) or any(set(tnames) & _binds(p) for p in parts):
+            return None
+        parts = [_Subst(temps).visit(copy.deepcopy(p)) if temps else p for p in parts]
+        if s_[0] == "temp":
+            temps[s_[1]] = parts[0]
+        else:
+            out.append((s_[1], s_[2], parts[0] if s_[2] == "dict" else None, parts[-1]))
+    return out
+
+
+def _collecting_loops(stmts: list, root=None) -> tuple:
+    """`X = {}` + `for T in IT: X[K] = V`  is  `X = {K: V for T in IT}`;  `X = []` + `for T in IT: X.append(V)`  is  `X = [V for T in IT]`.
+    Several collections filled by one loop (`A = []; B = []; for T in IT: A.append(V); B.append(W)`) are one comprehension each, in the order the
+    empty displays were assigned.  Exactly: the loop directly follows the empty displays of its collections (only empty displays of names the loop
+    does not mention may stand in between), its body only collects (see _collected), and neither IT, K nor V reads a collection."""
+    root = root if root is not None else ast.Module(body=stmts, type_ignores=[])
+    flat = []
+    for st in stmts:
+        flat += _split_empties(st) or [st]
+    out, nested, folded = [], False, False
+    for st in flat:
+        items = _collected(st, root) if isinstance(st, ast.For) else None
+        if items is not None:
+            want = {nm: kind for nm, kind, _, _ in items}
+            found: dict = {}
+            k = len(out)
+            while k > 0 and _empty_assigned(out[k - 1]) is not None:
+                nm, kind = _empty_assigned(out[k - 1])
+                if (nm in want and (want[nm] != kind or nm in found)) or (nm not in want and _mentions(st, nm)):
+                    break
+                if nm in want:
+                    found[nm] = k - 1
+                k -= 1
+            if set(found) == set(want):
+                by_name = {nm: (kind, key, val) for nm, kind, key, val in items}
+                new = []
+                for nm in sorted(found, key=found.get):
+                    kind, key, val = by_name[nm]
+                    gen = ast.comprehension(target=copy.deepcopy(st.target), iter=copy.deepcopy(st.iter), ifs=[], is_async=0)
+                    comp = ast.DictComp(key=key, value=val, generators=[gen]) if kind == "dict" else ast.ListComp(elt=val, generators=[gen])
+                    new.append(ast.copy_location(ast.Assign(targets=[ast.Name(id=nm, ctx=ast.Store())], value=ast.copy_location(comp, st)), st))
+                out = [s_ for j, s_ in enumerate(out) if j not in found.values()] + new
+                folded = True
+                continue
         for fld in ("body", "orelse", "finalbody"):
             sub = getattr(st, fld, None)
             if isinstance(sub, list) and sub and isinstance(sub[0], ast.stmt) and not isinstance(st, (ast.FunctionDef, ast.AsyncFunctionDef, ast.ClassDef)):
-                new_sub, ch = _collecting_loops(sub)
+                new_sub, ch = _collecting_loops(sub, root)
                 setattr(st, fld, new_sub)
-                changed = changed or ch
+                nested = nested or ch
         for h in getattr(st, "handlers", []) or []:
-            h.body, ch = _collecting_loops(h.body)
-            changed = changed or ch
+            h.body, ch = _collecting_loops(h.body, root)
+            nested = nested or ch
         out.append(st)
-        i += 1
-    return out, changed
+    return (out, True) if folded else (list(stmts), nested)
 
 
 _WRITTEN: dict = {}
@@ -332,7 +522,7 @@ def written_out(S, fi: FuncInfo) -> FuncInfo:
         return _WRITTEN[key][1]
     from .c01 import normalised
     node = copy.deepcopy(fi.node)
-    node.body, folded = _collecting_loops(node.body)
+    node.body, folded = _collecting_loops(node.body, node)
     cur = FuncInfo(fi.module, fi.qual, ast.fix_missing_locations(node), fi.cls, fi.parent) if folded else fi
     cur = normalised(S, cur)
     for _ in range(4):
@@ -662,6 +852,11 @@ def r13_4(chk: Check) -> None:
                     used = {x.attr for x in ast.walk(given[k]) if isinstance(x, ast.Attribute) and x.attr in checked}
                     if used != {k}:
                         bad.append(f"{k} built from {sorted(used)}")
+                    # an attribute whose name is computed (getattr(other, table[name]), vars(self)[...]) may be any of them
+                    dyn = [n(x)[:60] for x in ast.walk(given[k]) if (isinstance(x, ast.Call) and (dotted(x.func) or "").split(".")[-1] in ("getattr", "vars", "attrgetter", "__getattribute__"))
+                           or (isinstance(x, ast.Attribute) and x.attr == "__dict__")]
+                    if dyn:
+                        bad.append(f"{k} built from an attribute chosen at run time: {dyn[0]}")
             if cname == "BoltzmannDeltas":
                 chk.ob("R13.4", fm.where(), f"{cname}.{meth} maps each moment to itself", not bad, "; ".join(bad), key=f"container|{cname}.{meth}")
             else:
